@@ -19,7 +19,7 @@ LEVEL_RULE = (
 EXHAUSTIVE_SUBDOMAINS = ["the 0.0005-degree grid over [-90,90] (360001 points, split over shards)"]
 ASSUMPTIONS = ["transition latitudes computed in double precision; cases within 1e-9 deg of one accept both neighbours",
                "Python implementation here; the C twin is compared on the same latitude set by C15"]
-REQUIRED = ["nl_1", "nl_2", "nl_59", "grid", "ulps", "window87"]
+REQUIRED = ["nl_1", "nl_2", "nl_59", "grid", "ulps", "window87", "float_after_equal_float32"]
 
 WINDOW_HI = 87.0 + 1e-8 + 1e-5 * 87 + 1e-9
 
@@ -43,6 +43,13 @@ def m_nl(ctx, case):
         import numpy as np
         conv = getattr(np, case["as"])      # whole degrees in a numpy integer dtype (an element of an integer array)
     for lat in case["lats"]:
+        if case.get("warm"):
+            # the same number seen first in another type (single precision is legitimately imprecise next to a transition and
+            # is NOT judged there) - the double-precision answer that follows is judged as strictly as ever
+            import numpy as np
+            call(f, np.float32(lat))
+            call(f, np.float32(-lat))
+            ctx.hit("float_after_equal_float32")
         r = call(f, conv(lat))
         ctx.ev()
         allowed = cpr.NL_allowed(lat)
@@ -146,6 +153,15 @@ def cases(ctx):
         lats = sorted(float(np.float32(x)) for x in raw)
         lats = [x for x in lats if x <= 90.0 and not cpr.near_transition(x, 1e-4) and abs(x - 87.0) > 1e-4]
         yield "nl", {"kind": "float32", "lats": lats, "sorted_abs": True, "as": "float32"}
+    # float32-representable latitudes right next to the transitions: asked first as float32 (unjudged), then as float
+    for k in range(ctx.share(40 if quick else 400)):
+        lats = []
+        for T in cpr.TRANS.values():
+            for _ in range(6):
+                x = float(np.float32(T + rng.choice((-1, 1)) * 10 ** rng.uniform(-7, -4.5)))
+                if 0 < x < 90 and not cpr.near_transition(x):
+                    lats.append(x)
+        yield "nl", {"kind": "warm", "lats": sorted(lats), "sorted_abs": True, "warm": "float32"}
     # dense inside/around the 87 window
     for k in range(ctx.share(64)):
         lats = sorted(rng.uniform(86.998, 87.002) for _ in range(200))
